@@ -62,6 +62,24 @@ def _derived(job):
     return dict(ev="derived1", P=parse_pat(pat), v=state(v), text=glue.cp(t), accepted=bool(m and m.group(0) == t), dbg="%s tag=%s -> %s" % (pat, kw["tag"], t), pat=pat)
 
 
+# what {pep440_version} in a file pattern stands for under each legacy version pattern that has a PEP 440 form (README "Legacy Patterns"; BVLegacy expands the composites)
+DERIVED_OF = {"{pycalver}": "{pep440_pycalver}", "v{year}{month}{build}{release}": "{year}{month}.{BID}{pep440_tag}", "{year}{month}{build}{release}": "{year}{month}.{BID}{pep440_tag}",
+              "v{year}{build}{release}": "{year}.{BID}{pep440_tag}", "{year}{build}{release}": "{year}.{BID}{pep440_tag}"}
+
+
+def _derived_of(job):
+    """{pep440_version} as the code derives it from a legacy version pattern: what it writes for a state, and whether the pattern it compiled finds that text in full"""
+    vp, raw, date, kw = job
+    from bumpver import v1version, v1patterns
+    v = mk(date, **kw)
+    cp_ = v1patterns.compile_pattern(vp, raw)
+    t = v1version.format_version(v, cp_.raw_pattern)
+    m = cp_.regexp.search(t)
+    want = raw.replace("{pep440_version}", DERIVED_OF[vp])
+    return dict(ev="derived1", P=parse_pat(want), v=state(v), text=glue.cp(t), accepted=bool(m and m.group(0) == t),
+                dbg="%s: %s (derived by the code: %s) tag=%s bid=%s -> %s" % (vp, raw, cp_.raw_pattern, kw["tag"], kw["bid"], t), pat=vp)
+
+
 def _incr(job):
     pat, date, kw, f, nd, mode = job
     from bumpver import v1version
@@ -163,6 +181,10 @@ def run(ctx):
     events = drive.pmap(_rt, jobs, hooks=False, chunksize=200)
     djobs = [(DERIVED[i % len(DERIVED)], rdate(), dict(kw(), tag=["final", "alpha", "beta", "rc", "dev", "post"][(i // len(DERIVED)) % 6])) for i in range(ctx.pick(720, 20000))]
     events += drive.pmap(_derived, djobs, hooks=False, chunksize=200)
+    vps = sorted(DERIVED_OF)
+    d2jobs = [(vps[i % len(vps)], ['version="{pep440_version}"', "{pep440_version}", "pkg-{pep440_version}.tar.gz"][(i // len(vps)) % 3], rdate(),
+               dict(kw(), tag=["final", "alpha", "beta", "rc", "dev", "post"][(i // 15) % 6])) for i in range(ctx.pick(540, 12000))]
+    events += drive.pmap(_derived_of, d2jobs, hooks=False, chunksize=200)
     ijobs = []
     for i in range(ctx.pick(4000, 200000)):
         pat = PATS[i % len(PATS)]
